@@ -1,5 +1,6 @@
 import Driver.Proto
 import Gotree.Spec.C06
+import Gotree.Model.C06Index
 
 namespace Gotree.Driver.C06
 open Gotree Gotree.Driver Gotree.C06
@@ -185,35 +186,54 @@ def judge (extraTags : List String) (rev : Bool) (names : List String) (before :
 def parseBool : String → Option Bool
   | "0" => some false | "1" => some true | _ => none
 
+/-- a library-level `RemoveTips` case (ops `remove` and `stale`): the induced-subtree oracle and the tie
+    of `judge`, then the raw index answers, bitsets and `CommonEdges` -/
+def handleRemove (extra : List String) (revs namess dump outcome adump exs tis nbs tnns tnds tnps rowss ces : String) : Verdict :=
+  match parseBool revs, parseStrList namess, T.undump dump, parseStrList exs, parseIntList tis, nbs.toInt?,
+    parseStrList tnns, parseIntList tnds, parseIntList tnps, parseIntList ces with
+  | some rev, some names, some before, some ex, some ti, some nb, some tnn, some tnd, some tnp, some ce =>
+    let rows : List (Option (List Bool)) := (splitTerm ";" rowss).map fun r =>
+      if r == "nil" then none else some (r.toList.map (· == '1'))
+    let after? := T.undump adump
+    -- TipNode, judged on its raw answers (Spec.tipNodesOK)
+    let nodeok := match after? with
+      | some after => tipNodesOK after ex tnn tnd tnp
+      | none => true
+    let v := judge (extra ++ ["lib"]) rev names before outcome adump (some (ex, ti, nb, nodeok))
+    -- the branch indexes (bitsets) are refreshed against the NEW tip index: every branch carries the split
+    -- it induces on the remaining tips (Spec.bitsetsOK on the raw bitsets), and the pruned tree shares its
+    -- branches with an independently built copy (Spec.commonEdgesOK on the raw CommonEdges answers)
+    match after? with
+    | some after =>
+      if v.status == .pass && C06.uniq before && (kept before names rev).length ≥ 3 then
+        if !(bitsetsOK after ex ti rows) then
+          ⟨.oracle, "bitsets-wrong" :: v.tags, "the branch bitsets do not carry the restricted splits (width " ++
+            toString ((rows.head?.getD none).map (·.length)) ++ " for " ++ toString after.tipNames.length ++ " tips)"⟩
+        else if !(commonEdgesOK ce) then
+          ⟨.oracle, "bitsets-wrong" :: v.tags, "CommonEdges with an independently built copy of the result: " ++ ces⟩
+        -- tie of the model of the refresh (Model/C06Index: bitsets = UpdateBitSet against the tip index, tipNodeOf =
+        -- TipNode): run on the implementation's own tree and index, it must give the implementation's rows / nodes
+        else if bitsets ex after != rows.mapM id then
+          ⟨.tie, "bitsets-ok" :: v.tags, "model of UpdateBitSet differs from the bitsets of the implementation: " ++
+            toString ((bitsets ex after).map fun l => l.map fun r => String.ofList (r.map fun b => if b then '1' else '0'))⟩
+        else if ex.map (tipNodeOf ex after) != (List.zip tnn (List.zip tnd tnp)).map
+            (fun x => if x.2.1 ≥ 0 && x.2.2 ≥ 0 then some (x.1, x.2.1.toNat, x.2.2.toNat) else none) then
+          ⟨.tie, "bitsets-ok" :: v.tags, "model of TipNode differs from the answers of the implementation"⟩
+        else { v with tags := "index-model-tied" :: "bitsets-ok" :: v.tags }
+      else { v with tags := "bitsets-unchecked" :: v.tags }
+    | none => v
+  | _, _, _, _, _, _, _, _, _, _ => bad "C06.remove/stale fields"
+
 def handle (op : String) (f : List String) : Verdict :=
   match op, f with
   | "remove", [revs, namess, pre, dump, outcome, adump, exs, tis, nbs, tnns, tnds, tnps, rowss, ces] =>
-    match parseBool revs, parseStrList namess, T.undump dump, parseStrList exs, parseIntList tis, nbs.toInt?,
-      parseStrList tnns, parseIntList tnds, parseIntList tnps, parseIntList ces with
-    | some rev, some names, some before, some ex, some ti, some nb, some tnn, some tnd, some tnp, some ce =>
-      let rows : List (Option (List Bool)) := (splitTerm ";" rowss).map fun r =>
-        if r == "nil" then none else some (r.toList.map (· == '1'))
-      let after? := T.undump adump
-      -- TipNode, judged on its raw answers (Spec.tipNodesOK)
-      let nodeok := match after? with
-        | some after => tipNodesOK after ex tnn tnd tnp
-        | none => true
-      let v := judge (tagIf (pre == "1") "preindex" ++ ["lib"]) rev names before outcome adump (some (ex, ti, nb, nodeok))
-      -- the branch indexes (bitsets) are refreshed against the NEW tip index: every branch carries the split
-      -- it induces on the remaining tips (Spec.bitsetsOK on the raw bitsets), and the pruned tree shares its
-      -- branches with an independently built copy (Spec.commonEdgesOK on the raw CommonEdges answers)
-      match after? with
-      | some after =>
-        if v.status == .pass && C06.uniq before && (kept before names rev).length ≥ 3 then
-          if !(bitsetsOK after ex ti rows) then
-            ⟨.oracle, "bitsets-wrong" :: v.tags, "the branch bitsets do not carry the restricted splits (width " ++
-              toString ((rows.head?.getD none).map (·.length)) ++ " for " ++ toString after.tipNames.length ++ " tips)"⟩
-          else if !(commonEdgesOK ce) then
-            ⟨.oracle, "bitsets-wrong" :: v.tags, "CommonEdges with an independently built copy of the result: " ++ ces⟩
-          else { v with tags := "bitsets-ok" :: v.tags }
-        else { v with tags := "bitsets-unchecked" :: v.tags }
-      | none => v
-    | _, _, _, _, _, _, _, _, _, _ => bad "C06.remove fields"
+    handleRemove (tagIf (pre == "1") "preindex") revs namess dump outcome adump exs tis nbs tnns tnds tnps rowss ces
+  -- a history on one in-memory tree: index built, tree edited behind the index's back (`edits`, applied by the
+  -- harness on the real tree `n0`), then RemoveTips on the tree whose α dump is `dump`; judged exactly like
+  -- `remove` (RemoveTips works from the tree, never from the cached name → tip map)
+  | "stale", [revs, namess, edits, _n0, dump, outcome, adump, exs, tis, nbs, tnns, tnds, tnps, rowss, ces] =>
+    let kinds := ((splitTerm ";" edits).map fun e => "edit-" ++ ((e.splitOn ":").headD "")).eraseDups
+    handleRemove (["stale-index", "preindex"] ++ kinds) revs namess dump outcome adump exs tis nbs tnns tnds tnps rowss ces
   | "cli", [revs, hasF, fnamess, hasC, cdump, randoms, _seed, argss, dump, outcome, adump, hook] =>
     match parseBool revs, parseBool hasF, parseStrList fnamess, parseBool hasC, randoms.toInt?, parseStrList argss, T.undump dump with
     | some rev, some hf, some fnames, some hc, some random, some args, some before =>
